@@ -122,6 +122,8 @@ type CaseCfg struct {
 	Custom    map[string]*CustomOp
 	Stateless []string
 	Costs     map[string]float64
+	// OptionFuncs: when set, the optimization subset is selected through these option functions instead of Opts
+	OptionFuncs []eval.Option
 	// RegisterAlways: register VarNames even in undefined-variable mode (mixed registered / undefined names)
 	RegisterAlways bool
 	// Directive: when set, the source carries ";;;;" directives selecting this subset (Opts is only the base config)
@@ -154,9 +156,37 @@ func (c CaseCfg) String() string {
 	return s
 }
 
+// registerOperatorFailures counts RegisterOperator calls that rejected a fresh name (reported by C10)
+var registerOperatorFailures int
+
+// viaOptionFuncs: build the optimization subset through the Optimizations(...) option functions instead of the map
+func (o OptSet) optionFuncs(r interface{ Intn(int) int }) []eval.Option {
+	var on, off []eval.CompileOption
+	for i, n := range optNames {
+		if o&(1<<uint(i)) != 0 {
+			on = append(on, n)
+		} else {
+			off = append(off, n)
+		}
+	}
+	switch {
+	case o == OptAll:
+		return []eval.Option{[]eval.Option{eval.Optimizations(true), eval.Optimizations(true, eval.Optimize)}[r.Intn(2)]}
+	case o == OptNone:
+		return []eval.Option{[]eval.Option{eval.Optimizations(false), eval.Optimizations(false, eval.Optimize)}[r.Intn(2)]}
+	case r.Intn(2) == 0:
+		return []eval.Option{eval.Optimizations(false), eval.Optimizations(true, on...)}
+	}
+	return []eval.Option{eval.Optimizations(true, eval.Optimize), eval.Optimizations(false, off...)}
+}
+
 func buildConfig(c CaseCfg, cfgRec *Recorder) *eval.Config {
 	cc := eval.NewConfig()
-	c.Opts.Apply(cc)
+	if c.OptionFuncs != nil {
+		cc = eval.NewConfig(c.OptionFuncs...)
+	} else {
+		c.Opts.Apply(cc)
+	}
 	switch c.Events {
 	case 1:
 		cc.CompileOptions[eval.ReportEvent] = true
@@ -186,7 +216,15 @@ func buildConfig(c CaseCfg, cfgRec *Recorder) *eval.Config {
 		names = append(names, n)
 	}
 	sort.Strings(names)
-	for _, n := range names {
+	for i, n := range names {
+		if i%2 == 0 {
+			// the documented registration entry point (must accept a fresh, non-built-in name)
+			if err := eval.RegisterOperator(cc, n, wrapCustom(c.Custom[n], cfgRec)); err != nil {
+				registerOperatorFailures++
+				cc.OperatorMap[n] = wrapCustom(c.Custom[n], cfgRec)
+			}
+			continue
+		}
 		cc.OperatorMap[n] = wrapCustom(c.Custom[n], cfgRec)
 	}
 	cc.StatelessOperators = append(cc.StatelessOperators, c.Stateless...)
